@@ -97,6 +97,21 @@ theorem wellScoped_eval_agg (Γ D : List Name) (t : IR) (hw : WellScoped Γ (som
     (ρ ρ' : Env) (A A' : List Env) (h : Agree Γ ρ ρ') (hA : AgreeA D A A') : eval ρ A t = eval ρ' A' t :=
   eval_agree t ρ ρ' A A' (h.mono (fv_subset_of_wellScoped hw)) (hA.mono (fva_subset_of_wellScoped hw))
 
+/-- **Value children of relational nodes** (`TableParallelize`'s rows-and-globals, the row function of `TableMapRows`, the predicate of
+`TableFilter` …): the engine evaluates such a child in a FRESH scope holding only the node's own bindings `own` (nothing for
+`TableParallelize`; `global`, `row` for `TableMapRows` / `TableFilter`).  A rendered child accepted by the scope check in exactly
+that scope and by the validator has the value of the plain child in every environment, and that value depends on the bindings of
+`own` only — no lifted binding from outside the node is needed. -/
+theorem relational_value_child_sound (own : List Name) (R P : IR)
+    (hs : scopeOk own none R = true) (hv : validate R P = true) :
+    (∀ ρ A, eval ρ A R = eval ρ A P) ∧
+    (∀ ρ ρ' A, (∀ y ∈ own, lookup ρ y = lookup ρ' y) → eval ρ A R = eval ρ' A R) :=
+  ⟨fun ρ A => validate_sound R P hv ρ A,
+   fun ρ ρ' A h => wellScoped_eval own none R ((scopeOk_iff own none R).1 hs) ρ ρ' A h⟩
+
+/-- a reference to a binding made outside the node is rejected: `(Ref __cse_1)` inside a `TableParallelize` child, nothing in scope -/
+example : scopeOk [] none (.acons (.arrayLen (.ref (.cse 1))) (.anil .int32)) = false := by decide
+
 /-- Every lifted binding of an accepted, well-scoped rendering is placed where the variables it uses are in scope: the scope
 check of the whole rendering is the scope check of each `Let` value at its site (unfolding lemma for `Let`). -/
 theorem wellScoped_let (Γ : List Name) (Δ : Option (List Name)) (x : Name) (v b : IR) :
